@@ -34,7 +34,7 @@ def junk(i):
 
 def scenarios(tier):
     k = 1 if tier == "quick" else 10
-    return [("err", 400 * k), ("lfr", 60 * k), ("unused_stream", 200 * k), ("unused_batch", 120 * k)]
+    return [("err", 900 * k), ("lfr", 120 * k), ("unused_stream", 400 * k), ("unused_batch", 240 * k)]
 
 
 def _enc_pair(rng, agree):
